@@ -60,7 +60,9 @@ def _rekey_params(tier):
         pos = [(31, 31), (31, 30), (30, 31), (0, 0), (9, 6)]
         return [dict(pos=p, secret=secrets[i % 5], layout=("envelope", "trailing")[i % 2]) for i, p in enumerate(pos)] + [dict(pos=(31, 31), secret=s, layout="envelope") for s in secrets[1:]]
     out = [dict(pos=(a, b), secret="empty", layout=("envelope", "trailing")[(a + b) % 2]) for a in range(32) for b in range(32)]
-    out += [dict(pos=p, secret=s, layout="envelope") for p in [(31, 31), (31, 30), (30, 31), (0, 0), (0, 31), (31, 0), (9, 6)] for s in secrets[1:]]
+    # 'zeros' has the length of a derived key, so every derived key gets a disequality with it: kept to positions with short derivation chains
+    out += [dict(pos=p, secret=s, layout="envelope") for p in [(31, 31), (31, 30), (30, 31), (0, 0), (0, 31), (31, 0), (9, 6)] for s in secrets[1:]
+            if s != "zeros" or p[0] >= 30]
     return out
 
 
